@@ -19,6 +19,11 @@ MCLeaveCfgs ==
     E |-> [reset |-> r, down |-> d, drop |-> dr, dsc1 |-> d1]] :
      lv \in {2, 3}, sp \in BOOLEAN, sl \in {-1, 300, 2000}, sc \in {-1, 5}, r \in Outs, d \in {0, 1300, 12000},
      dr \in BOOLEAN, d1 \in Outs}
+MCLeaveEdge ==   \* thorough: silences around the 10 s limit of wait_for_ecu
+  {[c |-> [e |-> "Start", flow |-> "leave", level |-> 2, supply |-> sp, sleep |-> sl, s0 |-> 2, sec0 |-> 5],
+    E |-> [reset |-> r, down |-> d, drop |-> dr, dsc1 |-> d1]] :
+     sp \in BOOLEAN, sl \in {-1, 0, 700}, r \in Outs, d \in {400, 700, 9400, 9600, 10000, 10400, 25000},
+     dr \in BOOLEAN, d1 \in Outs}
 MCLeaveSmall == {x \in MCLeaveCfgs : x.c.level = 2 /\ x.c.sec0 = 5 /\ x.c.sleep = 300}
 
 Data(n) == [i \in 1..n |-> (7 + 3 * (i - 1)) % 251]
